@@ -101,9 +101,18 @@ class Fn:
 
 
 class Bound:
-    def __init__(self, fi: FuncInfo, obj: object) -> None:
+    def __init__(self, fi: FuncInfo, obj: object, exact: bool = False) -> None:
         self.fi = fi
         self.obj = obj
+        self.exact = exact  # reached through super(): no virtual dispatch
+
+
+class SuperRef:
+    """`super()` inside a method of `cls`, for the receiver `obj`."""
+
+    def __init__(self, obj: object, cls: ClassInfo) -> None:
+        self.obj = obj
+        self.cls = cls
 
 
 class Closure:
@@ -1053,6 +1062,20 @@ class Evaluator:
             return self._class_attr(o.cls, attr, o)
         if isinstance(o, ClassRef):
             return self._class_attr(o.cls, attr, None)
+        if isinstance(o, SuperRef):
+            start = o.obj.cls if isinstance(o.obj, (Obj, ClassRef)) else o.cls
+            mro = self.repo.mro(start)
+            if o.cls not in mro:
+                raise Unknown("super(): receiver is not an instance of the defining class")
+            for c in mro[mro.index(o.cls) + 1:]:
+                if attr in c.methods:
+                    m = c.methods[attr]
+                    if m.is_property or m.is_classmethod:
+                        raise Unknown(f"super().{attr}: properties / class methods are not modelled")
+                    return Fn(m) if m.is_staticmethod else Bound(m, o.obj, exact=True)
+            if attr == "__init__" and not self.repo.external_bases(o.cls):
+                return model(lambda *a, **k: None)  # object.__init__
+            raise Unknown(f"super().{attr} is not defined in the analysed code")
         if isinstance(o, NativeObj):
             if attr in o.attrs:
                 return o.attrs[attr]
@@ -1128,6 +1151,15 @@ class Evaluator:
 
     # ------------------------------------------------------------------ calls
     def _call(self, e: ast.Call, fr: Frame):
+        if isinstance(e.func, ast.Name) and e.func.id == "super" and not e.args and not e.keywords and not fr.env.lookup("super")[0]:
+            fi = fr.fi
+            while fi is not None and fi.outer is not None:
+                fi = fi.outer
+            if fi is not None and fi.cls is not None and not fi.is_staticmethod and fi.param_names:
+                found, recv = fr.env.lookup(fi.param_names[0])
+                if found and isinstance(recv, (Obj, ClassRef)):
+                    return SuperRef(recv, fi.cls)
+            raise Unknown("super() outside a method")
         f = self.ev(e.func, fr)
         args: list = []
         for a in e.args:
@@ -1166,7 +1198,7 @@ class Evaluator:
             return self.call_function(f.fi, args, kwargs)
         if isinstance(f, Bound):
             fi = f.fi
-            if isinstance(f.obj, Obj):
+            if isinstance(f.obj, Obj) and not f.exact:
                 impl = self.repo.lookup_method(f.obj.cls, fi.name)
                 fi = impl if impl is not None else fi
             if fi.is_staticmethod:
